@@ -266,6 +266,24 @@ def _repr_one(c):
       if not err <= 256 * 2.220446049250313e-16 * max(grid.nodal_shape) * (np.abs(ref).max() + 1.0):
         bad(f'{op}:value', f'{where}: differs from the {want[i]} representation of the same band-limited function by {err:.3e}')
     tree, tags = new, list(want)
+  # the same round trip through the state-level helpers of shallow_water (they clip the top wavenumber on the way out)
+  if c['grid'] == 'distinct' and c['variant'] % 8 == 0:
+    from dinosaur import shallow_water as sw
+    if hasattr(sw, 'state_to_nodal') and hasattr(sw, 'state_to_modal'):
+      raw = [jnp.asarray(rs.randn(*((K,) + tuple(grid.modal_shape))) * mask) for _ in range(3)]
+      st = sw.State(*raw)
+      nodal_state = sw.state_to_nodal(st, grid)
+      back = sw.state_to_modal(nodal_state, grid)
+      for f, x in zip(('vorticity', 'divergence', 'potential'), raw):
+        clipped = np.asarray(x).copy(); clipped[..., grid.total_wavenumbers - 1:] = 0.0
+        n_ref = np.asarray(grid.to_nodal(jnp.asarray(clipped)))
+        tol = 256 * 2.220446049250313e-16 * max(grid.nodal_shape) * (np.abs(clipped).max() + 1.0)
+        gn, gb = np.asarray(getattr(nodal_state, f)), np.asarray(getattr(back, f))
+        if gn.shape != n_ref.shape or not np.abs(gn - n_ref).max() <= tol:
+          bad(f'state_to_nodal:{f}', f'state_to_nodal differs from the synthesis of the clipped coefficients on grid variant {c["variant"] % 2}')
+        elif gb.shape != clipped.shape or not np.abs(gb - clipped)[..., mask].max() <= tol:
+          bad(f'state_round_trip:{f}', f'state_to_modal(state_to_nodal(s)) differs from s with its top total wavenumber clipped by '
+              f'{np.abs(gb - clipped)[..., mask].max():.3e}')
   return out
 
 
